@@ -41,7 +41,7 @@ structure St where
 
 /-- `VerifyProof` as the source has it: the repaired algorithm once `facts` sees its key validation in store/smt.go -/
 def verifyNow (n : Nat) (k v : Bytes) (m : Bool) (root : Bytes) (ps : List PNode) : V.Verdict :=
-  if Gen.SmtFacts.verifyProofValidatesKeys then verifyFixed sha256 (h4 sha256) n k v m root ps
+  if Gen.SmtFacts.verifyProofValidatesKeys then verifyFixed Gen.SmtFacts.verifyProofChecksValueLength sha256 (h4 sha256) n k v m root ps
   else V.verify sha256 n k v m root ps
 
 def isReserved (n : Nat) (k : Key) : Bool := k == minKey n || k == maxKey n || k == rootKey n
